@@ -7,27 +7,46 @@ CONFIG = {
     "design_ref": "4.17",
     "technique": "Lean 4 proof about an executable octet-level model of iri/src/relativize.rs (same branches, same index "
                  "arithmetic, panics explicit) against the RFC 3986 5.2 resolution model; model tied to the code by a "
-                 "differential on Relativizer fields (Debug output) and relativize outputs",
+                 "differential on Relativizer fields (Debug output) and relativize outputs (all instantiations / entry points)",
     "level_text": "Proof (all octet strings base/IRI, all parent limits; kernel-checked, axioms propext/Classical.choice/"
                   "Quot.sound only, no native_decide) about the MODEL of relativize.rs: (1) the full statements RelInverse, "
-                  "RelIsRef, RelParents, RelBoundaries are REFUTED by nine kernel-checked witnesses on IRIs that sophia's own "
-                  "validator accepts (findings); (2) rel_partial_all / rel_inverse_partial / rel_is_ref_partial / "
-                  "rel_parents_partial: inside the decidable region `cleanCase` (query or fragment tails after the complete "
-                  "common path; path branches and directory extension for dot-free base paths, rooted or rootless, cut "
-                  "strictly inside the path, under CleanTail; absolute-path tails for empty base paths) RFC 3986 5.2 resolution of the result gives back the IRI, the "
-                  "result has neither scheme nor authority, and its leading '..' segments are exactly the inserted ones; "
-                  "(3) for every input: at most `parents` '../' are inserted (rel_parents_inserted), same-document IRIs are "
-                  "never answered None (rel_same_doc), all slices are taken inside the common prefix "
-                  "(rel_boundaries_partial). The model is the code by correspondence only: differential on "
-                  "Relativizer::new fields (public Debug output) and on relativize outputs incl. panic kinds, over "
-                  "grammar-generated pairs and the closed family of DESIGN 4.17; `cleanCase` itself is evaluated by the "
-                  "driver (m.clean) on every case and no failure inside it is ever excused.",
+                  "RelIsRef, RelParents, RelBoundaries (also restricted to UTF-8-shaped inputs: RelBoundariesUtf8) are REFUTED by "
+                  "ten kernel-checked witnesses on IRIs that sophia's own validator accepts (findings); (2) rel_partial_all / "
+                  "rel_inverse_partial / rel_is_ref_partial / rel_parents_partial: inside the decidable region `cleanCase` "
+                  "(query or fragment tails after the complete common path; path branches and directory extension for "
+                  "dot-free base paths, rooted or rootless, cut strictly inside the path, under CleanTail; absolute-path "
+                  "tails for empty base paths) RFC 3986 5.2 resolution of the result gives back the IRI, the result has "
+                  "neither scheme nor authority, and its leading '..' segments are exactly the inserted ones; (3) for every "
+                  "input: at most `parents` '../' are inserted (rel_parents_inserted), None is answered only when the common "
+                  "prefix stops before `pseudoroot` (rel_none_only_outside); (4) for every input that has the SHAPE of UTF-8 "
+                  "(utf8Shaped: a superset of Rust's str, evaluated by the driver on every case): relativize never panics "
+                  "unless the base is scheme://authority with the authority ending in a multi-byte character and an empty "
+                  "path (rel_boundaries_utf8_partial - the divergence point may be inside a 2-, 3- or 4-octet character; the "
+                  "excluded shape is exactly the witness of rel_boundaries_utf8_refuted), an IRI with the scheme, authority "
+                  "and path of the base is ALWAYS answered with a reference, without exception (rel_same_doc_some = the "
+                  "full clause RelSameDoc), and so is every IRI sharing the base up to pseudoroot (rel_some_inside); (5) two "
+                  "INPUT-side round-trip theorems whose hypotheses mention base, IRI and limit only: rel_same_doc_inverse_partial "
+                  "(same scheme/authority/path and same query, or base without query: the reference returned resolves to "
+                  "the IRI) and rel_path_input_partial (region `pathInputCase`: rooted dot-free base path, common prefix "
+                  "ending strictly inside it at or after pseudoroot, plain remaining IRI path: a reference IS returned, "
+                  "resolves to the IRI, has no scheme/authority and at most `parents` leading '..'; ~1500 of 15k quick "
+                  "cases, printed as m.inpath, never excused). The model "
+                  "is the code by correspondence only: differential on Relativizer::new fields (public Debug output) and on "
+                  "relativize outputs incl. panic kinds, over grammar-generated pairs and the closed family of DESIGN 4.17; "
+                  "`cleanCase` itself is evaluated by the driver (m.clean; 43% of the returned references in a quick run, "
+                  "30% in a thorough run) and no failure inside it is ever excused.",
     "level_note": "Strings are octet strings (List Char, one Char per UTF-8 octet); RFC 3986 resolution is applied to octet "
                   "strings (all delimiters are ASCII; that resolution commutes with UTF-8 encoding is not proved). BaseIri "
                   "accessors are modelled by the Appendix-B split. Outside cleanCase (bases with dot segments, '../' to the top "
                   "of a rootless base, slash-less rootless bases, authority-only differences) the code is right or wrong case by case: differential + ten "
                   "findings. The real resolver (oxiri) deviates from RFC 3986 on bases with dot segments / rootless bases "
-                  "(C09 findings): reported on the separate field `res`, not blamed on relativize. Fix patch: "
+                  "(C09 findings): reported on the separate field `res`, not blamed on relativize, and excused ONLY where the real "
+                  "answer equals a transcription of oxiri 0.2's parse_relative/parse_path/remove_last_segment "
+                  "(_oxiri_resolve, exact on all 245k thorough cases), so a new resolver defect in the same region is a "
+                  "violation. Panic kinds are recognised by comparing with panics the harness provokes itself through the "
+                  "same library calls (no message wording). Other entry points: Relativizer<String>, clone, base() "
+                  "(gen_same), resolve(IriRef) and resolve_into (res_same; FAIL.* when the round trip holds through "
+                  "resolve(&str) only). Release builds (new_unchecked not validating) are not executed. Fix patch: "
                   "notes/fixes/C17-relativize-side-conditions.diff.",
     "tables": [],
     "lean_targets": ["SophiaProofs.Props.C17", "SophiaProofs.Audit.C17"],
@@ -35,13 +54,19 @@ CONFIG = {
     "native_ok": [],
     "trivial_re": r"^skip",
     "rule": "(base, IRI, parents) triples: a base from the IRI grammar (schemes x authorities incl. empty/multi-byte/port/"
-            "userinfo/IP-literal x rooted/rootless/empty paths over a segment alphabet with '', '.', '..', 'x:y', ':', "
-            "multi-byte pairs sharing their first octet x query x fragment) and an IRI derived from it (same document, "
-            "sibling under every common directory, extension of the base string, truncation, authority/scheme with shared "
-            "prefix, single-character edit, independent); both accepted by Iri::new and BaseIri::new; parents in "
-            "{0,1,2,3,4,255}; plus the closed family (<=3 segments from {b,c,'',.,..,x:y,e-acute} on both sides of a "
+            "userinfo/IP-literal x rooted/rootless/empty paths of 0-12 segments over a segment alphabet with '', '.', '..', "
+            "'x:y', ':', 2-, 3- and 4-octet characters with siblings sharing 1, 2 and 3 leading octets x query (incl. '/', "
+            "'?', multi-byte) x fragment) and an IRI derived from it (same document, sibling under every common directory, "
+            "extension of the base string, truncation, authority/scheme with shared prefix, single-character edit, a "
+            "multi-byte character replaced by a sibling - preferably the last character of a component - with the rest "
+            "kept/dropped/replaced, independent), plus the class 'authority ending in a multi-byte character, empty path, "
+            "query' with IRIs continuing after the authority; both accepted by Iri::new and BaseIri::new; parents in "
+            "{0..7,9,12,254,255}; plus the closed family (<=3 segments from {b,c,'',.,..,x:y,e-acute} on both sides of a "
             "common prefix: sampled in quick, all 160k pairs in thorough) and a fixed corpus; `n` requests compare the "
-            "fields of Relativizer::new. Non-trivial = not skipped; distinct = distinct request lines",
+            "fields of Relativizer::new. Counters: pair.* (derivation), shape.* (where the common prefix ends: inside a "
+            "k-octet character, last character of path/query, deep bases, '/' in the query), limit.*, outcome.* (branch of "
+            "the real relativize taken). Non-trivial = not skipped; distinct = distinct request lines",
+    "exec_timeout": 3600,
     "trusted_base": ["RFC 3986 5.2 transcription lean/SophiaModel/Model/Resolve3986.lean",
                      "octet view of strings (one Char per UTF-8 octet) in lean/SophiaModel/Model/Relativize.lean",
                      "BaseIri accessors = Appendix-B split on accepted bases (checked by the `n` differential)"],
@@ -55,6 +80,8 @@ CONFIG["theorems"] = [
     "rel_is_ref_refuted_authority", "rel_parents_refuted", "rel_boundaries_refuted",
     "rel_parents_inserted", "rel_same_doc", "rel_boundaries_partial", "rel_partial_all",
     "rel_inverse_partial", "rel_is_ref_partial", "rel_parents_partial",
+    "rel_boundaries_utf8_refuted", "rel_boundaries_utf8_partial", "rel_same_doc_some",
+    "rel_none_only_outside", "rel_some_inside", "rel_same_doc_inverse_partial", "rel_path_input_partial",
 ]
 
 
@@ -82,8 +109,8 @@ def _c17(failure):
     except ValueError:
         return None
     I, M = kv(failure["impl"]), kv(failure["model"])
-    if M.get("m.clean") == "1":
-        return None          # nothing inside the proved region is ever excused
+    if M.get("m.clean") == "1" or M.get("m.inpath") == "1":
+        return None          # nothing inside the proved regions is ever excused
     boundary = I.get("rel") == "panic" and I.get("pk") == "boundary" and M.get("pk") == "boundary"
     if ("m.tail" not in M or "m.ins" not in M) and not boundary:
         return None
